@@ -43,7 +43,7 @@ def fresh_parse(dialect, text):
     return parser(dialect).parse(text)
 
 
-PROFILE = mibgen.profile(dialects=('v2', 'v2', 'v1'), modules=(1, 3), decls=(1, 12), compl_object_first=True,
+PROFILE = mibgen.profile(dialects=('v2', 'v2', 'v1'), modules=(1, 3), decls=(1, 12), compl_object_first=True, texts='nasty',
                          defval_empty_string=True, pykeywords=True)
 
 
